@@ -78,7 +78,7 @@ func TestPolicy(t *testing.T) {
 					l.ValidityURL = fmt.Sprintf("%s://%s/other/validity?x=%d", scheme, host, i)
 					p.ValidityScheme, p.ValidityHost = scheme, host
 				case "lifetime":
-					l.Expires = l.Date + c.PickI64("lifetime", 604799, 604800, 604801, 604800*2, 0)
+					l.Expires = l.Date + c.PickI64("lifetime", 604799, 604800, 604801, 604800*2, 0, 9300000000, 1<<40, 1<<62, 1<<32, 1<<31)
 					if l.Expires-l.Date == 604800 {
 						c.Probe("lifetime == 604800")
 					}
